@@ -129,11 +129,11 @@ pub fn check(prop: &str, tier: &str) -> i32 {
             rep.run_engine(&crate::op_sim::OpSim, scale(tier, 300_000, 6_000_000), &findings);
         }
         "C20" => {
-            rep.rule = "seeded worlds on the simulated disk, one of ten wrapper stacks drawn per run (CacheDB, State, State+bundle, WrapDatabaseRef, WrapDatabaseRef<CacheDB>, CacheDB<CacheDB>, State<CacheDB>, Box<State<Box>>, DatabaseComponents<Arc,Arc>, CacheDB<DatabaseComponents>) and sequences of 4-40 queries (basic, code_by_hash, storage, block_hash around the 256-block window / far past / future, has_storage) issued directly, through `&mut DB`, through `&mut dyn Database` in a Box and through the `_ref` forms, interleaved with real transactions committed through the stack and block-number jumps; every answer must equal the reference (disk + committed changes); F1: a fault at a drawn bottom-level call index of a query must surface as an error (never a default) and the repeated query must then be right; distinct by the hash of (stack, query kinds, call forms)".into();
+            rep.rule = "seeded worlds on the simulated disk, one of twelve wrapper stacks drawn per run (CacheDB, State, State+bundle, WrapDatabaseRef, WrapDatabaseRef<CacheDB>, CacheDB<CacheDB>, State<CacheDB>, Box<State<Box>>, DatabaseComponents<Arc,Arc>, CacheDB<DatabaseComponents>, and CacheDB<EmptyDB> / State<EmptyDB> holding the world themselves, loaded through insert_account_info / insert_account_storage / insert_account_with_storage) and sequences of 4-40 queries (basic, code_by_hash, storage, block_hash around the 256-block window / far past / future, has_storage) issued directly, through `&mut DB`, through `&mut dyn Database` in a Box and through the `_ref` forms, interleaved with real transactions committed through the stack, block-number jumps and, where a CacheDB is on top, direct insert_account_storage / replace_account_storage / insert_account_info calls on existing non-empty accounts; every answer must equal the reference (disk + committed changes); F1: a fault at a drawn bottom-level call index of a query must surface as an error (never a default) and the repeated query must then be right; distinct by the hash of (stack, query kinds, call forms)".into();
             rep.level = "fault_enumeration".into();
             rep.real_components = vec!["revm::db::{CacheDB, State, WrapDatabaseRef}, revm_primitives::db::{DatabaseComponents, Database/DatabaseRef auto_impls for &mut, Box, Arc} (unmodified)".into(), "revm::Evm for the committed transactions".into()];
             rep.stub_components = vec!["SimDisk + FaultyDb (also implementing the StateRef/BlockHashRef component traits)".into()];
-            rep.assumptions = vec!["State::storage / has_storage are called after the account was loaded (documented precondition)".into(), "an existing empty account and a missing account are the same answer once state clearing is active; code may be handed out lazily".into(), "fault indices 0..2 per query cover every bottom-level call a single query makes (at most three)".into()];
+            rep.assumptions = vec!["State::storage / has_storage are called after the account was loaded (documented precondition)".into(), "an existing empty account and a missing account are the same answer once state clearing is active; code may be handed out lazily".into(), "fault indices 0..2 per query cover every bottom-level call a single query makes (at most three)".into(), "EmptyDB stacks: block hashes are EmptyDB's keccak(decimal number); code of accounts inserted into a State is read the way the EVM does (inline code of `basic` first); no fault exists below them".into()];
             rep.run_engine(&WrapSim, scale(tier, 400_000, 10_000_000), &findings);
         }
         "C25" => {
@@ -155,11 +155,11 @@ pub fn check(prop: &str, tier: &str) -> i32 {
         }
         "C12" | "C13" => {
             rep.rule = if prop == "C12" {
-                "seeded histories of 3-80 operations (push, push_b256, pop, peek, dup, swap, exchange, push_slice with lengths 0..=1024*32+64 biased to word boundaries and to the 1024 limit, set) on the real Stack against a Vec<U256> model, some starting from an almost full stack; non-trivial always, distinct by the hash of (operation kinds, error/success sequence)".into()
+                "seeded histories of 3-80 operations (push, push_b256, pop, peek, dup, swap, exchange, push_slice with lengths 0..=1024*32+64 biased to word boundaries and to the 1024 limit, set) on the real Stack against a Vec<U256> model, some starting from an almost full stack; one case in four is instead a program of stack instructions only (PUSH0, PUSH1-32 incl. a final PUSHn cut short by the end of the code, POP, DUP1-16, SWAP1-16 and, in an EOF container, DUPN / SWAPN / EXCHANGE with boundary immediates; up to 1100 instructions so that the 1024 limit is reached) executed by the real interpreter loop with the real instruction table under a gas limit that lands the out-of-gas on an arbitrary instruction, and the final stack, result and gas meter are compared with the list model; non-trivial always, distinct by the hash of (operation kinds, error/success sequence) resp. (spec, result, instruction kinds)".into()
             } else {
-                "seeded histories of 3-80 operations (record_cost incl. 0 / remaining / remaining+1 / u64::MAX, erase_cost of part of what was spent, record_refund +/-, set_refund, set_final_refund London/pre-London, spend_all) on the real Gas meter with limits 0, small, large, u64::MAX against three integers; distinct by the hash of operation kinds".into()
+                "seeded histories of 3-80 operations (record_cost incl. 0 / remaining / remaining+1 / u64::MAX, erase_cost of part of what was spent, record_refund +/-, set_refund, set_final_refund London/pre-London, spend_all) on the real Gas meter with limits 0, small, large, u64::MAX against three integers; one case in four is a program of stack instructions run by the real interpreter loop whose gas limit is drawn inside the program's total cost (F2: the charge that fails must leave meter and stack as they were, every successful charge is exactly the instruction's cost); distinct by the hash of operation kinds".into()
             };
-            rep.real_components = vec![if prop == "C12" { "revm_interpreter::Stack (unmodified, incl. its unsafe pointer copies)".into() } else { "revm_interpreter::Gas (unmodified)".into() }];
+            rep.real_components = vec![if prop == "C12" { "revm_interpreter::Stack (unmodified, incl. its unsafe pointer copies)".into() } else { "revm_interpreter::Gas (unmodified)".into() }, "revm_interpreter::Interpreter::run + instruction table: instructions/stack.rs (pop, push0, push<N>, dup<N>, swap<N>, dupn, swapn, exchange), gas! charging, legacy code padding, Eof::decode (program cases)".into()];
             rep.stub_components = vec!["reference model (Vec<U256> resp. three integers) in sim/src/e4_adt.rs".into()];
             rep.assumptions = vec![
                 "no environment fault, schedule or interleaving exists at this surface: what is used from deterministic simulation is the reference-model oracle over seeded operation histories with shrinking and replay (model conformance)".into(),
@@ -169,7 +169,7 @@ pub fn check(prop: &str, tier: &str) -> i32 {
             rep.run_engine(&AdtSim { focus: prop.into() }, scale(tier, 400_000, 20_000_000), &findings);
         }
         "C21" => {
-            rep.rule = "collision matrix drawn per run: target pre-state {absent, code, nonce, storage only, balance only, nonce+storage} x layer stack {Raw, CacheDB, State, State+bundle, WrapDatabaseRef, WrapDatabaseRef<CacheDB>, CacheDB<CacheDB>, State<CacheDB>, Box<State<Box>>} (+ storage inserted into the CacheDB) x {CREATE, CREATE2, create transaction, EOFCREATE, EOF create transaction (the two EOF kinds under OSAKA)} x spec x {target touched by an earlier transaction or not} x value; a cell is distinct by (spec, layer, target state, kind, warm-up, value, lazy code)".into();
+            rep.rule = "collision matrix drawn per run: target pre-state {absent, code, nonce, storage only, balance only, nonce+storage} x layer stack {Raw, CacheDB, State, State+bundle, WrapDatabaseRef, WrapDatabaseRef<CacheDB>, CacheDB<CacheDB>, State<CacheDB>, Box<State<Box>>, CacheDB<EmptyDB>, State<EmptyDB> (world inserted into the layer itself)} (+ storage inserted into the CacheDB) x {CREATE, CREATE2, create transaction, EOFCREATE, EOF create transaction (the two EOF kinds under OSAKA)} x spec x {target touched by an earlier transaction or not} x value; a cell is distinct by (spec, layer, target state, kind, warm-up, value, lazy code)".into();
             rep.real_components = strs(REAL_E1);
             rep.stub_components = strs(STUB_E1);
             rep.assumptions = vec!["EIP-7610 is applied for every spec, as the property states".into(), "CREATE/CREATE2 cells run from Tangerine/Petersburg on (before EIP-150 a failed create leaves the caller without gas)".into()];
